@@ -213,7 +213,7 @@ func (p c17) Run(c *core.Ctx) {
 	// 1. prefix path: typed expectation
 	gotP, outP, detP := bindOnce(`prefix:"cfg.k"`, ft, doc)
 	c.Count("starts", 1)
-	if outP == "panic" || outP == "diverged" {
+	if abnormal(outP) {
 		c.Fail("", fmt.Sprintf("prefix binding of %#v into %s: %s", v.v, ft, detP), detail(nil))
 		return
 	}
@@ -226,7 +226,7 @@ func (p c17) Run(c *core.Ctx) {
 	for _, tw := range []struct{ name, tag string }{{"value", `value:"${cfg.k}"`}, {"prop", `prop:"cfg.k"`}} {
 		got, out, det := bindOnce(tw.tag, ft, doc)
 		c.Count("starts", 1)
-		if out == "panic" || out == "diverged" {
+		if abnormal(out) {
 			c.Fail("", fmt.Sprintf("%s binding of %#v into %s: %s", tw.name, v.v, ft, det), detail(nil))
 			return
 		}
@@ -275,7 +275,7 @@ func (p c17) literal(c *core.Ctx) {
 	got, out, det := bindOnce(fmt.Sprintf("value:%q", lit), ft, "")
 	c.Count("starts", 1)
 	d := map[string]any{"literal": lit, "target": ft.String(), "outcome": det}
-	if out == "panic" || out == "diverged" {
+	if abnormal(out) {
 		c.Fail("", fmt.Sprintf("literal value:%q into %s: %s", lit, ft, det), d)
 		return
 	}
